@@ -238,7 +238,9 @@ class SymInt:
         return self.concretize()
 
     def __hash__(self) -> int:
-        return hash(self.concretize())
+        # all symbolic ints share one hash bucket, so dict / set look-ups among symbolic keys are decided by `==`
+        # (a SymBool: the path forks on "same key?"); mixing symbolic and concrete int keys in one table is outside the model
+        return 0x5EED
 
     def __str__(self) -> str:
         return str(self.concretize())
